@@ -8,3 +8,4 @@ for pid in "$@"; do
 done
 git -C /repo checkout -- .
 git -C /repo status --short | head -3
+python3 tools/extract_shape.py coq/Gen/Shape.v >/dev/null
